@@ -476,7 +476,7 @@ def main(argv):
     sel, files = [], []
     for path, target, hs in reg:
         mine = [h for h in hs if (prop in h.props or h.kind == "gate" or (prop == "ALL-THOROUGH-ONLY" and h.tier == "thorough"))
-                and (tier == "thorough" or h.tier == "quick")
+                and (h.tier == "quick" or (tier == "thorough" and h.tier == "thorough"))  # tier=experimental is never run
                 and (only is None or only in h.name or h.kind == "gate")]
         if mine:
             files.append((path, target))
